@@ -24,16 +24,20 @@ type c07Scenario struct {
 	SlowSink  int    `json:"slow_sink"` // 0 no, else virtual microseconds per output call
 	InfluxBuf int    `json:"influx_buffer"`
 	FlushMs   int    `json:"flush_ms"`
-	NodeFail  int    `json:"node_fail_at"` // 0 none, else n-th message consumed by the failing node
-	Immediate bool   `json:"immediate"`    // true: stop at once; false: first let the ingest queue in front of the task drain
+	NodeFail  int    `json:"node_fail_at"`                                // 0 none, else n-th message consumed by the failing node
+	Immediate bool   `json:"immediate"`                                   // true: stop at once; false: first let the ingest queue in front of the task drain
 	AnonTopic bool   `json:"alert_also_on_its_anonymous_topic,omitempty"` // the alert node has a handler of its own: its anonymous topic is closed when the node ends
+	Waiter    bool   `json:"someone_waits_for_the_task,omitempty"`        // a goroutine sits in ExecutingTask.Wait() for the life of the task, as the task store's does
+	QueryMs   int    `json:"query_ms,omitempty"`                          // batch shape: latency of the (fake) InfluxDB query
+	StopAtMs  int    `json:"stop_at_ms,omitempty"`                        // batch shape: the stop is requested after this much virtual time
 	Config    string `json:"config"`
 }
 
 func c07Gen(c *Ctx) *c07Scenario {
 	g := c.G
 	sc := &c07Scenario{}
-	sc.Shape = []string{"influx", "log", "alert", "loopback", "fork", "join", "failnode"}[g.Intn(7)]
+	sc.Shape = []string{"influx", "log", "alert", "loopback", "fork", "join", "failnode", "union", "batch"}[g.Intn(9)]
+	sc.Waiter = g.Bool()
 	sc.InfluxBuf = []int{1000, 1, 2, 5}[g.Intn(4)]
 	sc.FlushMs = []int{10000, 1, 50}[g.Intn(3)]
 	nw := g.Range(1, 3)
@@ -81,6 +85,17 @@ func c07Gen(c *Ctx) *c07Scenario {
 		sc.ScriptB = "stream\n    |from().measurement('m')\n    |log().prefix('B/0')\n"
 	case "fork":
 		sc.Script = "var s = stream\n    |from().measurement('m')\n    |log().prefix('A/in')\ns\n    |where(lambda: \"v\" >= 0)\n    " + out(0) + "\ns\n    |log().prefix('A/0')\ns\n    " + alert + "\n"
+	case "union":
+		// two parents that are at different timestamps when the stop arrives: what the union holds back for the one
+		// that is behind is owed to the sink all the same
+		sc.Script = "var a = stream\n    |from().measurement('m').where(lambda: \"w\" == 0)\n    |log().prefix('A/in')\nvar b = stream\n    |from().measurement('m').where(lambda: \"w\" != 0)\n    |log().prefix('A/in')\na\n    |union(b)\n    |log().prefix('A/0')\n"
+	case "batch":
+		// a batch task (termination only): the stop arrives while a query is running and, with slow queries, the next tick is already due
+		sc.QueryMs = []int{0, 300, 700, 1200, 2600}[g.Intn(5)]
+		sc.StopAtMs = g.Intn(4000)
+		sched := []string{".every(500ms)", ".every(500ms).align()", ".every(1s).align()", ".cron('* * * * * * *')"}[g.Intn(4)]
+		sc.Script = "batch\n    |query('SELECT v FROM \"db\".\"rp\".\"m\"')\n        .period(1s)\n        " + sched + "\n    |log().prefix('A/0')\n"
+		sc.Writers, sc.StopAfter, sc.Immediate = nil, 0, true
 	case "join":
 		sc.Script = "var a = stream\n    |from().measurement('m').groupBy('host')\n    |log().prefix('A/in')\nvar b = stream\n    |from().measurement('m').groupBy('host')\n    |eval(lambda: \"v\" * 2).as('v')\na\n    |join(b).as('a', 'b')\n    |log().prefix('A/0')\n"
 	}
@@ -152,17 +167,35 @@ func runC07(c *Ctx) Verdict {
 				return
 			}
 		}
-		ta, err := d.Define("A", sc.Script, kapacitor.StreamTask, []kapacitor.DBRP{{Database: "db", RetentionPolicy: "rp"}})
+		tt := kapacitor.StreamTask
+		if sc.Shape == "batch" {
+			tt = kapacitor.BatchTask
+			fi.QueryLatency = func() time.Duration { return time.Duration(sc.QueryMs) * time.Millisecond }
+		}
+		ta, err := d.Define("A", sc.Script, tt, []kapacitor.DBRP{{Database: "db", RetentionPolicy: "rp"}})
 		if err != nil {
 			verdict = Fail("harness/setup", "define A: %v\n%s", err, sc.Script)
 			return
 		}
 		g0 := simrt.GoroutineCount()
-		if _, err := d.TM.StartTask(ta); err != nil {
+		et, err := d.TM.StartTask(ta)
+		if err != nil {
 			verdict = Fail("harness/setup", "start A: %v", err)
 			return
 		}
+		if sc.Shape == "batch" {
+			if err := et.StartBatching(); err != nil { // as services/task_store does right after StartTask
+				verdict = Fail("harness/setup", "StartBatching: %v", err)
+				return
+			}
+		}
 		g1 := simrt.GoroutineCount()
+		if sc.Waiter {
+			go et.Wait() // services/task_store does this for every task it starts, to record its failure
+		}
+		if sc.Shape == "batch" {
+			time.Sleep(time.Duration(sc.StopAtMs) * time.Millisecond)
+		}
 		var wg sync.WaitGroup
 		nacks := 0
 		paused := false
@@ -246,8 +279,8 @@ func runC07(c *Ctx) Verdict {
 		v.Shape = shape
 		return v
 	}
-	if sc.Shape == "failnode" {
-		// a failed task owes its outputs nothing; it must have terminated (checked above)
+	if sc.Shape == "failnode" || sc.Shape == "batch" {
+		// a failed task owes its outputs nothing (and what a batch task owes is the subject of C16); it must have terminated (checked above)
 		return Pass()
 	}
 	// ---- conservation ----
@@ -286,7 +319,7 @@ func runC07(c *Ctx) Verdict {
 		outs = append(outs, o)
 	}
 	switch sc.Shape {
-	case "log", "fork", "join":
+	case "log", "fork", "join", "union":
 		o := output{name: "log sink A/0"}
 		for _, ob := range d.Sinks.Get("A/0") {
 			id, ok := ids(ob.Copy.Fields)
